@@ -68,7 +68,7 @@ A_PAGEMUT = 'in-memory page construction (prelude/pagemut.rs): the header record
 PROPS['C02'] = dict(
     level='proof',
     composition='MACHINE-CHECKED: theorem_crash_atomicity / corollary_durable_after_ok (unit crash, prelude/crash_spec.rs) from the clause predicates (w1)-(w3) of write_data (lemma_clauses_from_contract) and the recovery oracle select_header of DBInner::meta; remaining paper steps: allocated pages are disjoint from the old tree (T1/F1 + INV-live, lemma L2), H1 for a torn header',
-    units=['commit', 'freelist', 'meta', 'db', 'crash'],
+    units=['commit', 'freelist', 'meta', 'db', 'crash', 'open'],
     kani_quick=['layout'],
     explanation='Crash atomicity: TxInner::write_data is verified on its real body against a file stand-in whose every operation may fail: '
                 '(w1) every data write targets a page allocated in this transaction (T1/F1: from the free set or fresh, never a live page), '
@@ -84,7 +84,7 @@ PROPS['C02'] = dict(
 )
 PROPS['C11'] = dict(
     level='proof',
-    units=['commit', 'freelist'],
+    units=['commit', 'freelist', 'open'],
     explanation='I/O errors in commit: every seek/write_all/flush/sync_all/metadata/resize in write_data may return Err in the stand-in; the `?` on each is the proof '
                 'that the error is propagated and nothing panics (all arithmetic/bounds obligations discharged under the stated size bound). '
                 '(w4a): an Err return after the header write can only come from the two known exits; (w4b)/(w4c) are the known finding E2.',
